@@ -7,13 +7,16 @@
 #include "rkcommon/utility/Optional.h"
 
 #include <new>
+#include <sanitizer/asan_interface.h>
 
 namespace c09 {
 
-template <typename T, bool OFFSET>
+// layouts: 0 = the Optional alone in its heap block, 1 = struct{char; Optional}, 2 = the middle
+// element of Optional<T> a[3]
+template <typename T, int OFFSET>
 struct Holder;
 template <typename T>
-struct Holder<T, false>
+struct Holder<T, 0>
 {
   rkcommon::utility::Optional<T> o;
   Holder() {}  // user-provided: default-initialises o, the bytes stay as malloc left them
@@ -23,7 +26,7 @@ struct Holder<T, false>
   }
 };
 template <typename T>
-struct Holder<T, true>
+struct Holder<T, 1>
 {
   char c;  // puts the Optional at the first offset its own alignment allows
   rkcommon::utility::Optional<T> o;
@@ -34,7 +37,22 @@ struct Holder<T, true>
   }
 };
 
-template <typename P, bool OFFSET>
+template <typename T>
+struct Holder<T, 2>
+{
+  typedef rkcommon::utility::Optional<T> Opt;
+  Opt a[3];  // a[0] and a[2] stay empty; the slot is a[1], at offset sizeof(Optional<T>)
+  Opt &o;
+  Holder() : o(a[1]) {}
+  template <typename A>
+  explicit Holder(A &&x) : o(a[1])
+  {
+    a[1].~Opt();
+    new (&a[1]) Opt(std::forward<A>(x));
+  }
+};
+
+template <typename P, int OFFSET>
 struct Exec
 {
   typedef typename P::T T;
@@ -50,13 +68,28 @@ struct Exec
 
   static std::string tag()
   {
-    return std::string("Optional<") + P::name() + ">" + (OFFSET ? "@{char,Optional}" : "");
+    return std::string("Optional<") + P::name() + ">" + (OFFSET == 1 ? "@{char,Optional}" : OFFSET == 2 ? "@Optional[3]" : "");
   }
 
-  void *mem()
+  // The holder goes to the least aligned address its own alignof permits: an odd multiple of
+  // alignof(H) (block aligned to 2*alignof(H), object at +alignof(H)).  If alignof(Optional<T>)
+  // is smaller than alignof(T) the payload is then misaligned and UBSan sees the placement-new.
+  // ASan: redzone behind the block, the slack in front is poisoned, fresh bytes are 0xbe.
+  static void *mem()
   {
-    void *p = malloc(sizeof(H));  // ASan: redzones around it, filled with 0xbe
-    return p;
+    void *raw = nullptr;
+    const size_t al = alignof(H) < sizeof(void *) ? sizeof(void *) : alignof(H);
+    if (posix_memalign(&raw, 2 * al, sizeof(H) + al) != 0)
+      abort();
+    ASAN_POISON_MEMORY_REGION(raw, al);
+    return (char *)raw + al;
+  }
+  static void unmem(void *p)
+  {
+    const size_t al = alignof(H) < sizeof(void *) ? sizeof(void *) : alignof(H);
+    void *raw = (char *)p - al;
+    ASAN_UNPOISON_MEMORY_REGION(raw, al);
+    free(raw);
   }
   static void fillU(OptU &u, int s)
   {
@@ -91,7 +124,7 @@ struct Exec
       h[a] = new (mem()) H(std::move(u));
     } else if (is(o, "de")) {
       h[a]->~H();
-      free(h[a]);
+      unmem(h[a]);
       h[a] = nullptr;
     } else if (is(o, "av")) {
       if (b == 0) {
